@@ -36,7 +36,7 @@ Section Members.
     - destruct o as [m|ty|f|va|p]; simpl in H; try discriminate.
       destruct (fd_body f) as [t0|a|] eqn:Eb; try discriminate.
       + inversion H; subst. constructor. exact Eb.
-      + destruct (rec a) as [cns| | | | |] eqn:Er; try discriminate.
+      + destruct (rec a) as [cns| | | |] eqn:Er; try discriminate.
         destruct (find_object mods (last cns (CN "" []))) as [o'|] eqn:Eo; [|discriminate].
         eapply po_alias; [exact Eb | apply Hrec; exact Er | exact Eo | apply IH; exact H].
   Qed.
@@ -84,7 +84,7 @@ Section Members.
     - destruct v' as [|v']; [lia|].
       destruct o as [m|ty|f|va|p]; simpl in H; try discriminate. simpl.
       destruct (fd_body f) as [t0|a|] eqn:Eb; try discriminate; [exact H|].
-      destruct (rec a) as [cns| | | | |] eqn:Er; try discriminate. rewrite (Hm _ _ Er).
+      destruct (rec a) as [cns| | | |] eqn:Er; try discriminate. rewrite (Hm _ _ Er).
       destruct (find_object mods (last cns (CN "" []))) as [o'|]; [|discriminate].
       apply IH; [lia | exact H].
   Qed.
@@ -119,7 +119,6 @@ Section Members.
     match rec a with
     | FROk cns => match find_object mods (last cns (CN "" [])) with Some o => dv rec v o | None => DStuck end
     | FRFuel => DFuel
-    | FRCrashParam => DCrashParam
     | FRStuck => DStuck
     | FRErr _ | FRSilent => DSilent
     end.
@@ -156,4 +155,13 @@ Section Members.
       + intros a' c Ha'. eapply resolve_fr_mono; [|exact Ha']. apply Nat.le_max_r.
       + simpl in H2. rewrite <- app_assoc in H2. exact H2.
   Qed.
+  (* a parameter has no members: `p.x`, and `v.x` where v aliases a parameter, are the
+     noncomposite error (fixes e48f2e2, 6efa7de), never a crash *)
+  Lemma devirt_parameter : forall rec v p, dv rec v (OParam p) = DParam.
+  Proof. intros rec [|v] p; reflexivity. Qed.
+
+  Lemma member_of_parameter_lem : forall rec v file o pr n l rest acc,
+    dv rec v o = DParam ->
+    wm rec v file o pr ((n, l) :: rest) acc = FRErr (Err KNoncomposite file (snd pr) (fst pr) []).
+  Proof. intros rec v file o pr n l rest acc H. simpl. rewrite H. reflexivity. Qed.
 End Members.
